@@ -33,7 +33,10 @@ MANIFEST = {
              "replayed on the real rescan (NewRescan(...).Start() with a gate-implementing ChainSource, a real "
              "blockntfns.SubscriptionManager behind Subscribe, real blocks and real GCS filters) and the walk / "
              "relevant-transaction operators of RescanProps.tla are evaluated by TLC on the callback histories observed "
-             "(OnFilteredBlockConnected/Disconnected and the legacy OnBlockConnected/Disconnected).",
+             "(OnFilteredBlockConnected/Disconnected and the legacy OnBlockConnected/Disconnected). In addition seeded "
+             "free-running executions of the real rescan (random schedules on an 11-block tree with two forks, real "
+             "100 ms retry timer, up to 400 steps) are recorded, judged by the same operators and checked by TLC to be "
+             "behaviours of Rescan.tla (TraceRescan.tla).",
         note="Bounded: trees of <=8 blocks with one fork, <=4 transactions, <=3 chain extensions, <=3 rolled-back blocks, "
              "<=2 injected fetch failures, <=1 update. The caller's start block is on the chain when the rescan "
              "initialises; EndBlock and DisableDisconnectedNtfns are not used. The 100 ms retry timer is real: a path on "
@@ -41,7 +44,7 @@ MANIFEST = {
              "the rescan goroutine would end the driver (exit 2), it is not turned into a verdict. Trusts TLC, the "
              "driver's block/transaction ground truth and its id projection.",
         design="4 C09", technique="TLA+ spec + TLC exhaustive + spec-to-code replay of every transition through gates + "
-                                  "TLC-judged observed callback histories"),
+                                  "TLC-judged observed callback histories + trace validation of free-running executions"),
 }
 
 PROPS = {"C09": ["ConnectIsChildOfCurrent", "DisconnectIsCurrent", "NoBlockSkippedOrRepeated",
